@@ -340,6 +340,11 @@ class RTFDocument(BaseModel):
         if self.df is not None:
             is_multi_section = isinstance(self.df, list)
 
+            # The defaults below are written into copies, never into the
+            # caller's component objects (which may be shared by documents
+            # with a different number of columns).
+            self._copy_table_components()
+
             if is_multi_section:
                 # Handle multi-section documents
                 for section_df, section_body in zip(
@@ -392,6 +397,21 @@ class RTFDocument(BaseModel):
 
         # Apply table spacing to text components if needed
         self._apply_table_spacing()
+
+    def _copy_table_components(self):
+        """Detach body and column header objects from the caller's instances."""
+        if isinstance(self.rtf_body, (list, tuple)):
+            self.rtf_body = [body.model_copy() for body in self.rtf_body]
+        elif self.rtf_body is not None:
+            self.rtf_body = self.rtf_body.model_copy()
+
+        if self.rtf_column_header:
+            self.rtf_column_header = [
+                [h.model_copy() if h is not None else None for h in header]
+                if isinstance(header, (list, tuple))
+                else (header.model_copy() if header is not None else None)
+                for header in self.rtf_column_header
+            ]
 
     def _apply_table_spacing(self):
         """Apply table-based spacing to text components that reference the table."""
